@@ -5,8 +5,8 @@ HERE = os.path.dirname(os.path.dirname(os.path.abspath(__file__)))
 CLAIMED = {
     "C14": dict(level="fault_enumeration", ref="DESIGN.md §4 C14",
         technique="deterministic simulation: option-history programs with injected exits/faults vs a stack model",
-        text="Seeded programs of nested global_options blocks (real with-statements, generator-held and decorated blocks) with set_options, invalid updates, mutation of returned dicts, every exception kind, early return/break, and exceptions injected inside real numpoly calls (line interrupt at position k, MemoryError at allocation k); a stack model of the option dict is compared with get_options() after every step. Also: manager objects entered while active or again afterwards, decorated recursive functions, updates with ill-formed values (atomic either way), unknown names with any value (None, False, ""), and runs with warnings escalated to errors. The enumerated family (depth 1-4 x 15 exit kinds x 7 inner actions x catch level) is covered completely in every run, the rest is seeded sampling: evidence, not proof.",
-        note="Trusts CPython's contextlib and the harness's stack model (40 lines). Interrupts are never injected into frames of numpoly/option.py itself (asynchronous-exception atomicity of a context manager's own entry/exit code is more than C14 states). No thread interleavings inside option code (no property quantifies over schedules)."),
+        text="Seeded programs of nested global_options blocks (real with-statements, generator-held and decorated blocks) with set_options, invalid updates, mutation of returned dicts, every exception kind, early return/break, and exceptions injected inside real numpoly calls (line interrupt at position k, MemoryError at allocation k); a stack model of the option dict is compared with get_options() after every step. Also: manager objects entered while active or again afterwards, decorated recursive functions, updates with ill-formed values (atomic either way), unknown names with any value (None, False, ""), runs with warnings escalated to errors, a second party's set_options landing at executed line k of a running library operation (which must not overwrite it), and stack exhaustion at every distance from the recursion limit in a window around a block. The enumerated family (depth 1-4 x 15 exit kinds x 7 inner actions x catch level) is covered completely in every run, the rest is seeded sampling: evidence, not proof.",
+        note="Trusts CPython's contextlib and the harness's stack model (40 lines). Interrupts are never injected into frames of numpoly/option.py itself (asynchronous-exception atomicity of a context manager's own entry/exit code is more than C14 states). Overlapping global_options blocks of two threads are not explored (they restore each other's snapshots by design of the unchanged tree; DESIGN 9)."),
 
     "C17": dict(level="fault_enumeration", ref="DESIGN.md §4 C17",
         technique="deterministic simulation: fault injection at interior points of every public call (line interrupts, allocation failures, natural errors) with byte-level argument snapshots",
@@ -18,7 +18,7 @@ CLAIMED = {
         note="Only module-level numpy.argsort/sort calls inside numpoly are interceptable; a method-form call would see this platform's real order (evidence reports seam consult counts). start<=stop and lower norm<=upper norm are generated; near-boundary points for norms .5/.8 are accepted either way."),
     "C07": dict(level="exploration", ref="DESIGN.md §4 C07",
         technique="deterministic simulation: tie-order seam x sort-option histories, documented-order oracle on canonical term dictionaries",
-        text="Pairs and triples of polynomial arrays biased to many same-degree terms (incl. unsigned/narrow dtypes and int64 extremes) are compared with all six operators, the numpy/numpoly spellings and maximum/minimum under all four sort settings (reached directly, through nested blocks or through set_options inside a block) and under adversarial tie policies; verdicts must equal the documented order computed independently of glexsort, satisfy trichotomy/antisymmetry/transitivity, and not depend on the tie policy. History: option prelude, retain options in force, the same comparison interrupted and repeated, the smaller operand overwritten in place between two comparisons, the same object on both sides, comparisons evaluated by a worker thread started inside the option block; operands of mixed signed/unsigned 64-bit dtype and of identical storage layout over different names; fresh memory holds a fixed pattern.",
+        text="Pairs and triples of polynomial arrays biased to many same-degree terms (incl. unsigned/narrow dtypes and int64 extremes) are compared with all six operators, the numpy/numpoly spellings and maximum/minimum under all four sort settings (reached directly, through nested blocks or through set_options inside a block) and under adversarial tie policies; verdicts must equal the documented order computed independently of glexsort, satisfy trichotomy/antisymmetry/transitivity, and not depend on the tie policy. History: option prelude, retain options in force, the same comparison interrupted and repeated, the smaller operand overwritten in place between two comparisons, the same object on both sides, comparisons evaluated by a worker thread started inside the option block, the sort order selected at executed line k of a comparison that is still under way (deterministic interleaving), dense 66-84-term operands; operands of mixed signed/unsigned 64-bit dtype and of identical storage layout over different names; fresh memory holds a fixed pattern.",
         note="Names are generated in numeric-suffix order; no NaN/inf. Quick uses the stable policy plus one seeded adversarial policy per case, thorough all four."),
     "C19": dict(level="exploration", ref="DESIGN.md §4 C19",
         technique="deterministic simulation: tie-order seam x heap-content seam, leading-term oracle on canonical term dictionaries",
